@@ -169,6 +169,9 @@ func (v *version) get(aux tFiles, ikey internalKey, ro *opt.ReadOptions, noValue
 				tseek = true
 			}
 		}
+		if level >= 0 {
+			verifAt("g.visit", v.id, level, t.fd.Num)
+		}
 
 		var (
 			fikey, fval []byte
@@ -236,6 +239,7 @@ func (v *version) get(aux tFiles, ikey internalKey, ro *opt.ReadOptions, noValue
 	if tseek && tset.table.consumeSeek() <= 0 {
 		tcomp = atomic.CompareAndSwapPointer(&v.cSeek, nil, unsafe.Pointer(tset))
 	}
+	verifAt("g.done", v.id, ikey, tseek, len(aux), sampleSeeks && (err == nil || err == ErrNotFound), tset)
 
 	return
 }
